@@ -397,9 +397,28 @@ fn j2oas_schema_object(
     obj: &schemars::schema::SchemaObject,
 ) -> openapiv3::ReferenceOr<openapiv3::Schema> {
     if let Some(reference) = &obj.reference {
-        return openapiv3::ReferenceOr::Reference {
+        let reference = openapiv3::ReferenceOr::Reference {
             reference: reference.clone(),
         };
+        // A reference can carry `nullable` (e.g., the schema for `Option<T>`
+        // where `T` is a named type).  OpenAPI 3.0 ignores the siblings of a
+        // `$ref`, so express this as a nullable `allOf` of the reference
+        // rather than silently dropping the nullability.
+        if matches!(
+            &obj.extensions.get("nullable"),
+            Some(serde_json::Value::Bool(true))
+        ) {
+            return openapiv3::ReferenceOr::Item(openapiv3::Schema {
+                schema_data: openapiv3::SchemaData {
+                    nullable: true,
+                    ..Default::default()
+                },
+                schema_kind: openapiv3::SchemaKind::AllOf {
+                    all_of: vec![reference],
+                },
+            });
+        }
+        return reference;
     }
 
     let ty = match &obj.instance_type {
